@@ -69,6 +69,38 @@ Proof.
     destruct (K a) as (E1 & E2 & E3 & E4 & E5 & E6); rewrite E1, E2, E3, E4, E5, E6; simpl; ring.
 Qed.
 
+(* ---- rigid translations have zero strain: closes the hypothesis of reaction_balance_e2e ----
+   T(a*q + l) = t_l (the same vector at every node).  The only fact needed about the element is
+   sum_a dN_k(a) = 0 at the Gauss point, i.e. the gradient of the partition of unity sum_a N_a = 1
+   (C06 proves the partition of unity on the regenerated shape-function tables; the physical
+   gradient is a linear image of the reference gradient, C02_constant_zero_gradient). *)
+Hypothesis grad_pou : forall k, sumn nPe (fun a => dN k a) = 0.
+
+Lemma grad_translation : forall q (t : nat -> R) k l, (l < q)%nat ->
+  (forall i, u i = t (i mod q)%nat) -> grad_u q k l = 0.
+Proof.
+  intros q t k l Hl Hu. unfold grad_u.
+  rewrite (sumn_ext nPe _ (fun a => t l * dN k a)).
+  - rewrite sumn_scal, grad_pou. ring.
+  - intros a _. rewrite Hu. destruct (dec q a l Hl) as [_ E]. rewrite E. ring.
+Qed.
+
+Theorem translation_zero_strain_2d : forall t, (forall i, u i = t (i mod 2)%nat) ->
+  forall r, (r < 3)%nat -> eps2 r = 0.
+Proof.
+  intros t Hu r Hr. destruct strain_is_sym_grad_2d as (E0 & E1 & E2).
+  destruct r as [|[|[|r]]]; [rewrite E0 | rewrite E1 | rewrite E2 | lia];
+    rewrite ?(grad_translation 2 t) by (assumption || lia); ring.
+Qed.
+
+Theorem translation_zero_strain_3d : forall t, (forall i, u i = t (i mod 3)%nat) ->
+  forall r, (r < 6)%nat -> eps3 r = 0.
+Proof.
+  intros t Hu r Hr. destruct strain_is_sym_grad_3d as (E0 & E1 & E2 & E3 & E4 & E5).
+  destruct r as [|[|[|[|[|[|r]]]]]]; [rewrite E0 | rewrite E1 | rewrite E2 | rewrite E3 | rewrite E4 | rewrite E5 | lia];
+    rewrite ?(grad_translation 3 t) by (assumption || lia); ring.
+Qed.
+
 End Strain.
 
 (* with c = 1/sqrt 2 the rescaled shear rows are the tensor components 1/2 (d_k u_l + d_l u_k) *)
@@ -86,7 +118,12 @@ Proof.
 Qed.
 
 Print Assumptions strain_is_sym_grad_3d.
+Print Assumptions translation_zero_strain_3d.
 Print Assumptions shear_component_2d.
+
+(* non-vacuity of grad_pou: a 2-node bar, dN = (-1, 1) *)
+Example grad_pou_instance : forall k : nat, sumn 2 (fun a => match a with 0%nat => -1 | _ => 1 end) = 0.
+Proof. intro. simpl. ring. Qed.
 
 Example strain_instance : eps2 1 (1 / 2) (fun k a => INR (k + 1)) (fun i => INR i + 1) 0 = 1 * 1.
 Proof. unfold eps2, B2. simpl. ring. Qed.
